@@ -18,7 +18,10 @@ Inductive err : Type :=
 | BadDefinitionError | TruthTableBadShapeError | BenchParseError
 | NoSolutionError | GenerationError
 | PyTypeError | PyKeyError | PyIndexError | PyValueError | PyAssertionError
-| PyStopIteration | OutOfFuel.
+| PyStopIteration | OutOfFuel
+(* never produced by the model: the harness prints any Python exception outside this list as this
+   constructor, so such an exception can never agree with a model result *)
+| UnmodelledPythonException.
 
 Scheme Equality for err.
 
